@@ -333,6 +333,8 @@ def r7_cancellation(ctx):
 
 
 def run(ctx):
+    from . import C09 as _C09s
+    _C09s.r10_constructor_siblings(ctx)   # both roles start a session in the same state (counter 0, unbuffered, ids from 1): sibling cross-check of the constructors
     from . import effects
     effects.check_property(ctx, "C11")    # R11.E: no operation on shared protocol state outside the reviewed table
     from . import C01 as _C01
